@@ -292,7 +292,7 @@ func clipStr(s string, n int) string {
 
 func c06(r *mon.Run) {
 	r.Rule = "per case a fresh document (every array with spare capacity), one goroutine deep-reading every word of it (elements up to cap, map entries) with no synchronisation to the goroutine that calls Search; under -race any write to the document is a reported data race whether or not it changes a value; plus a canonical snapshot before/after, on value and error returns alike, and the compiled AST's s-expression before/after for literal-fed calls. " +
-		"Workload: every built-in function (every typed argument template) with every parameter fed from the document x 24 nestings (standalone, piped, in multi-selects, twice, inside a projection, inside an expression reference, inside a filter, followed by an error, next to an erroring sibling, and as the left side of every projection kind, of filters that drop elements and of an index …), the same with literals, 27 special compositions (sorts of sorts, failing by-expression sorts, flatten/merge/to_array aliasing), every built-in function on 23 typed operands of Go-struct documents (typed slices, structs, pointers; 1 and 2 arguments); seeded random trees on typed documents; 26 flatten/projection/function shapes on one-element wrappers around lists of 1…4096 elements (exact and spare capacity) and on lists of one-element lists; the function matrix on documents whose leaves are json.Number / int / pointers / named types. Non-trivial = distinct expressions that reached the interpreter and returned."
+		"Workload: every built-in function (every typed argument template) with every parameter fed from the document x 24 nestings (standalone, piped, in multi-selects, twice, inside a projection, inside an expression reference, inside a filter, followed by an error, next to an erroring sibling, and as the left side of every projection kind, of filters that drop elements and of an index …), the same with literals, 27 special compositions (sorts of sorts, failing by-expression sorts, flatten/merge/to_array aliasing), every built-in function on 23 typed operands of Go-struct documents (typed slices, structs, pointers; 1 and 2 arguments); seeded random trees on typed documents; 26 flatten/projection/function shapes on one-element wrappers around lists of 1…4096 elements (exact and spare capacity) and on lists of one-element lists; 130 field / projection / filter / function expressions on Go documents of the embedding family (nil and set embedded pointers behind pointers and typed slices of pointers); the function matrix on documents whose leaves are json.Number / int / pointers / named types. Non-trivial = distinct expressions that reached the interpreter and returned."
 	r.Floor = 300
 	r.Assumptions = []string{"the Go race detector reports conflicting accesses without a happens-before edge regardless of their timing; harness goroutines share nothing but the document",
 		"built with -race; without the race log (VH_RACELOG) only the snapshot monitor is active and the run is reported as inconclusive for the 'no write' clause"}
@@ -461,6 +461,61 @@ func c06(r *mon.Run) {
 			mode := i % len(docs.ExoticModes)
 			c06Case(r, t, rl, "non-canonical-leaves", i, xtrees[i/len(docs.ExoticModes)], func() interface{} { return docs.Exotic(base, mode) }, false)
 		}}
-	r.Exec(fm, sd, rnd, wr, xd)
+	// documents of the embedding family (docs/shadow.go: embedded structs by value and by nil / set pointer, reached
+	// by value, through pointers and through typed slices of pointers): reading a promoted field must not
+	// allocate, fill in or otherwise touch what it walks through
+	var sexprs []string
+	for _, f := range docs.ShadowFieldNames {
+		sexprs = append(sexprs, "PNil."+f, "PSet."+f, "QNil."+f, "POne."+f, "PItems[*]."+f, "QItems[*]."+f, "PItems[?"+f+"].Name", "QItems[1:]."+f, "abs(QNil."+f+")", "PItems[*].length("+f+")", f, "[*]."+f, "[0]."+f)
+	}
+	sroots := []func(k int) interface{}{
+		func(k int) interface{} { return docs.ShadowDoc(gen.DeriveN(r.Seed, "c06shadow", k%5), k) },
+		func(k int) interface{} { d := docs.ShadowDoc(gen.DeriveN(r.Seed, "c06shadow", k%5), k); return &d },
+		func(k int) interface{} { return &docs.PlainPtr{Tag: "root"} },
+		func(k int) interface{} { return &docs.ShadowPtr{Name: "root"} },
+		func(k int) interface{} { return []*docs.PlainPtr{{Tag: "a"}, nil, {Tag: "b"}} },
+		func(k int) interface{} { return []*docs.ShadowPtr{{Name: "a"}, {Name: ""}} },
+		func(k int) interface{} { return []docs.PlainPtr{{Tag: "a"}, {Tag: "b"}} },
+	}
+	emb := mon.Workload{Name: "embedded-struct-documents", N: len(sexprs) * len(sroots) * 2, Serial: true, Batch: 200,
+		Describe: func(i int) string {
+			return sexprs[i/2/len(sroots)] + " on embedding-family root " + strconv.Itoa(i/2%len(sroots))
+		},
+		Do: func(i int, t *mon.Tally) {
+			expr := sexprs[i/2/len(sroots)]
+			mk := func() interface{} { return sroots[i/2%len(sroots)](i % 4) }
+			doc := mk()
+			var jp *jmespath.JMESPath
+			if i%2 == 1 {
+				j, co := apiCompile(expr)
+				if co.Panicked || co.Err != nil {
+					return
+				}
+				jp = j
+			}
+			t.Eval()
+			o, changed := searchWatched(expr, jp, doc)
+			if o.Panicked {
+				return // C18's business
+			}
+			onWhat := "success"
+			if o.Err != nil {
+				onWhat = "error return"
+			}
+			if changed || mon.Snapshot(doc) != mon.Snapshot(mk()) {
+				r.Violate(&mon.Violation{Workload: "embedded-struct-documents", Index: i, API: "Search", Expr: expr, DocDesc: clipStr(mon.Snapshot(mk()), 600), Expected: "struct document unchanged (" + onWhat + ")",
+					Observed: "after the call: " + clipStr(mon.Snapshot(doc), 800), Class: "embedded-struct-documents: snapshot changed on " + onWhat})
+				return
+			}
+			if rep := rl.Grown(); rep != "" {
+				n, frames := mon.RaceSummary(rep, "go-jmespath")
+				r.Violate(&mon.Violation{Workload: "embedded-struct-documents", Index: i, API: "Search", Expr: expr, DocDesc: clipStr(mon.Snapshot(mk()), 600),
+					Expected: "no write to the struct document during the call (" + onWhat + ")", Observed: "race detector: " + mon.Show(float64(n)) + " report(s); library frames: " + strings.Join(frames, ", "),
+					Detail: clipStr(rep, 6000), Class: "embedded-struct-documents: write detected by the race detector"})
+				return
+			}
+			t.Nontrivial("emb:" + expr + strconv.Itoa(i%len(sroots)))
+		}}
+	r.Exec(fm, sd, rnd, wr, xd, emb)
 	r.Extra["race_log_active"] = rl != nil
 }
